@@ -29,6 +29,11 @@ pub fn curated() -> Vec<Vec<String>> {
         v.push(vec![format!("{m}{m}")]);
     }
     v.push(crate::space::A_META.iter().map(|m| m.to_string()).collect());
+    // more than 20 test cases (std's sort switches algorithm there), mixed lengths
+    v.push((1..=22u32).map(|i| (i * i).to_string()).collect());
+    v.push((1..=120u32).map(|i| i.to_string()).collect());
+    v.push((0..64u32).map(|i| format!("{:b}", i * 37 % 251)).collect());
+    v.push((1..=40u32).map(|i| "ab".repeat((i % 7 + 1) as usize) + &i.to_string()).collect());
     v
 }
 
